@@ -4,19 +4,38 @@ import ADProofs
 -/
 open Tree
 
-/-- symmetric adjacency (hypothesis; proved for the grid adjacencies in `ADProofs.Grid`) -/
+/-- symmetric adjacency (hypothesis; proved for every grid adjacency in `C17_grid_symmetric`) -/
 def SymmAdj (E : Env) : Prop := ∀ x y, y ∈ E.nbrs x → x ∈ E.nbrs y
 
-/-- **C03 (roots are connected).** After processing any sequence of pixels with any criteria,
-every parentless structure, together with its substructures, is connected under the adjacency. -/
-theorem C03_roots_connected (E : Env) (hsym : SymmAdj E) (order : List Nat) :
-    ∀ t ∈ run E order, PixConn E t :=
-  run_induction E (fun roots => ∀ t ∈ roots, PixConn E t) (by simp)
-    (fun roots p h => step_roots_conn E hsym roots p h) order
+/-- non-increasing processing order (checked on every implementation trace) -/
+def SortedDesc (E : Env) (order : List Nat) : Prop := order.Pairwise (fun a b => E.val b ≤ E.val a)
+
+/-- **C03 (every structure is connected).** After processing any sequence of pixels with any
+criteria (ties allowed), every structure — root or not — together with its substructures is
+connected under the adjacency in use. -/
+theorem C03_all_connected (E : Env) (hsym : SymmAdj E) (order : List Nat) :
+    ∀ t ∈ preL (run E order), PixConn E t := ContourP.run_all_connected E hsym order
 
 /-- **C03 (roots are closed).** No pixel of one parentless structure is adjacent to a pixel of
-another: together with connectedness and C01's partition, the parentless structures are exactly
-the connected components of the processed set. -/
+another: with connectedness and C01's partition, the parentless structures are exactly the
+connected components of the processed (above-threshold) set. -/
 theorem C03_roots_closed (E : Env) (hsym : SymmAdj E) (order : List Nat) : Closed E (run E order) :=
   run_induction E (Closed E) (by intro t ht; simp at ht)
     (fun roots p h => step_closed E hsym roots p h) order
+
+/-- **C03 (contour).** For every structure that has a parent, every above-threshold (= processed)
+pixel adjacent to its region from outside is no brighter than every pixel of the region. -/
+theorem C03_contour (E : Env) (hsym : SymmAdj E) (order : List Nat) (hnd : order.Nodup)
+    (hsorted : SortedDesc E order) :
+    ∀ r ∈ run E order, ∀ s ∈ preL r.kids, ∀ a ∈ s.pixels, ∀ b ∈ E.nbrs a, b ∈ order → b ∉ s.pixels →
+      ∀ x ∈ s.pixels, E.val b ≤ E.val x := ContourP.run_frozen_contour E hsym order hnd hsorted
+
+/-- **C03 (no pruning ⇒ branch pixels lie below the substructures).** -/
+theorem C03_branch_own_le_sub (E : Env) (order : List Nat) (hnd : order.Nodup) (hsorted : SortedDesc E order)
+    (hnoprune : ∀ t p v, E.indep t p v = true) :
+    ∀ t ∈ preL (run E order), ∀ a ∈ t.own, ∀ b ∈ pixelsL t.kids, E.val a ≤ E.val b :=
+  ContourP.run_branch_own_le_sub E order hnd hsorted hnoprune
+
+-- non-vacuity: the 6-pixel row is sorted, duplicate-free, and its adjacency is symmetric
+example : let E := envOf (fun p => [1, 10, 5, 9, 2, 8][p]!) (Grid.nbrs [6] []) []
+    [1, 3, 5, 2, 4, 0].Nodup ∧ sortedDesc E.val [1, 3, 5, 2, 4, 0] = true := by decide
